@@ -33,10 +33,11 @@ type c19Params struct {
 	Ticks   int
 	Stops   int
 	Request bool
+	Hang    bool // the backends accept probes and never answer them
 }
 
 func c19Scenario(p c19Params, bound int) vh.SScenario {
-	return vh.SScenario{Name: fmt.Sprintf("shutdown-ticks%d-stops%d-req%v", p.Ticks, p.Stops, p.Request), KeyPrefix: "C19", Bound: bound, Params: p,
+	return vh.SScenario{Name: fmt.Sprintf("shutdown-ticks%d-stops%d-req%v-hang%v", p.Ticks, p.Stops, p.Request, p.Hang), KeyPrefix: "C19", Bound: bound, Params: p,
 		ShardSubtrees: true, Horizon: 2000,
 		Body: func(x *vh.Exec) {
 			s := x.S
@@ -131,9 +132,9 @@ func TestVerifC19(t *testing.T) {
 		p c19Params
 		b int
 	}
-	scs := []sc{{c19Params{1, 1, false}, 2}, {c19Params{2, 1, false}, 2}, {c19Params{1, 2, false}, 2}, {c19Params{1, 1, true}, 2}, {c19Params{0, 2, true}, 1}}
+	scs := []sc{{c19Params{1, 1, false, false}, 2}, {c19Params{2, 1, false, false}, 2}, {c19Params{1, 2, false, false}, 2}, {c19Params{1, 1, true, false}, 2}, {c19Params{0, 2, true, false}, 1}, {c19Params{1, 1, false, true}, 2}, {c19Params{1, 2, false, true}, 1}}
 	if vres.Thorough() {
-		scs = []sc{{c19Params{1, 1, false}, 3}, {c19Params{2, 1, false}, 2}, {c19Params{1, 2, false}, 2}, {c19Params{1, 1, true}, 2}, {c19Params{0, 2, true}, 2}, {c19Params{2, 2, true}, 1}}
+		scs = []sc{{c19Params{1, 1, false, false}, 3}, {c19Params{2, 1, false, false}, 2}, {c19Params{1, 2, false, false}, 2}, {c19Params{1, 1, true, false}, 2}, {c19Params{0, 2, true, false}, 2}, {c19Params{2, 2, true, false}, 1}, {c19Params{1, 1, false, true}, 3}, {c19Params{2, 2, false, true}, 2}}
 	}
 	for _, c := range scs {
 		vh.RunS(r, "TestVerifC19", c19Scenario(c.p, c.b))
